@@ -19,7 +19,7 @@ branch of _compute_geometry_2d), seeded interior-node perturbations that keep ce
 independently -- otherwise sw.skip()), affine images (planar faces kept), perturbed hexahedra (non-planar faces:
 only A, B, D, E and |n|<=area are demanded), and rigid embeddings of 1-D / 2-D grids in 3-D.
 
-Detection power (scratch copy of /repo/src, POREPY_SRC, one mutant at a time; all gave exit 1 + VIOLATION):
+Detection power (scratch copy of /repo/src, POREPY_SRC, one mutant at a time; exit 1 + VIOLATION unless stated otherwise):
   * grid.py _compute_geometry_2d: sub_centroids weight ``(c + 2 f)/3`` -> ``(2 c + f)/3``    -> caught by G
     (only on perturbed / non-parallelogram quadrilaterals, as expected)
   * grid.py _compute_geometry_3d: ``tri_centroids = 3/4 * dist`` -> ``2/3 * dist``            -> caught by G (only on the
